@@ -511,6 +511,28 @@ class CollectionsModel:
         raise Unsupported("collections.%s is not modelled" % k)
 
 
+class SparsityOf(NativeModel):
+    """sparsity pattern of a value: an entry is structurally non-zero when its value number is not the zero polynomial"""
+
+    def __init__(self, m):
+        self._m = m
+
+    def has_nz(self, i, j):
+        return bool(self._m.cells[int(i)][int(j)].t)
+
+    def nnz(self):
+        return sum(1 for p_ in self._m.flat() if p_.t)
+
+    def size1(self):
+        return self._m.r
+
+    def size2(self):
+        return self._m.c
+
+    def is_dense(self):
+        return self.nnz() == self._m.r * self._m.c
+
+
 class MathModel:
     pi = cm.PI
 
@@ -1039,6 +1061,17 @@ class Interp:
             found, v = env.lookup(n.id)
             if found:
                 return v
+            if n.id == "getattr":
+                def _getattr(o, k, *default):
+                    if not isinstance(k, str):
+                        raise Unsupported("getattr with a computed name", n)
+                    try:
+                        return self.getattr(o, k, n)
+                    except InterpRaise as ex:
+                        if default and ex.kind == "AttributeError":
+                            return default[0]
+                        raise
+                return _getattr
             if n.id == "map":
                 return lambda f_, *its: [self.call(f_, list(x), {}, n) for x in zip(*[self.iterate(i_, n) for i_ in its])]
             if n.id == "filter":
@@ -1417,6 +1450,11 @@ class Interp:
                 return lambda: sum(1 for p in o.flat() if p.t)
             if k == "is_scalar":
                 return lambda *a: o.is_scalar()
+            if k == "is_zero":
+                # structural / constant zero: True only when every entry is the zero value number (a symbolic entry is not)
+                return lambda: all(not p_.t for p_ in o.flat())
+            if k == "sparsity":
+                return lambda: SparsityOf(o)
             if k == "name":
                 a = o.s().single_atom() if o.is_scalar() else None
                 if a is None or a.kind != "sym":
